@@ -470,7 +470,7 @@ def parse_obs(line):
             d["bogus_wire"] = w
     for p in cls:
         p = " " + p
-        c = {"closed": "CLOSED" in p}
+        c = {"closed": ("CLOSED" in p) or ("GONE" in p)}
         for key in ("M", "C", "R"):
             m = re.search(r" %s=\[([^\]]*)\]" % key, p)
             c[key] = parse_rects(m.group(1)) if m else []
@@ -682,6 +682,11 @@ def oracle_case(case, impl_lines, crash):
         if p[0] == "newfb":
             full = {}
         prev = o
+    if crash and crash != "not run":
+        # every operation was answered, the crash came when the screen was torn down (rfbScreenCleanup)
+        m = re.search(r"where=(\S+)", crash)
+        return ("implementation crashed while the screen was cleaned up after the last operation: %s" % crash.split("\n")[0][:200],
+                {"what": "crash", "op": "cleanup", "where": m.group(1) if m else "?"})
     return None
 
 
